@@ -935,6 +935,11 @@ class Effects:
                         note_read(a, pt)
                     cs = self._call(body, val, t, pt)
                     sites.append(cs)
+                    # a local function passed by name (`iter_mut().for_each(Param::clear)`): it may be called on
+                    # anything the other arguments can reach
+                    for a in t["args"]:
+                        if a.get("k") == "const" and a.get("fn") in self.summaries:
+                            sites.append(self._fn_item_call(body, val, t, pt, a["fn"]))
                     d = t["dest"]
                     il, dst = self._resolve(body, val, d)
                     if not il:
@@ -1052,6 +1057,39 @@ class Effects:
                     val[dest_local] |= rets
             if not resolved:
                 self.unknown_callees.add((body.path, cs.callee))
+        return cs
+
+    def _fn_item_call(self, body, val, t, pt, g):
+        cs = CallSite()
+        cs.body = body.path
+        cs.point = pt
+        cs.term = None
+        cs.line = t["loc"]["line"]
+        cs.decl = g
+        cs.trait = None
+        cs.callee = g
+        cs.local = True
+        others = set()
+        for a in t["args"]:
+            if a.get("k") == "const":
+                continue
+            av = self._operand_val(body, val, a)
+            others |= set(av) | {trunc(p + ("[]",)) for p in av}
+        cs.arg_vals = [others]
+        s = self.summaries[g]
+
+        def sub(paths, keep_ro=False):
+            out = set()
+            for p in paths:
+                if p[0] != "arg1":
+                    continue
+                for base in others:
+                    q = trunc(tuple(base) + tuple(p[1:]))
+                    if keep_ro or not is_ro(q):
+                        out.add(q)
+            return out
+        cs.W = sub(s.W)
+        cs.R = {plain(p) for p in sub(s.R, keep_ro=True)}
         return cs
 
     def _closure_creation(self, body, val, pt, cdef, upvals):
